@@ -519,6 +519,29 @@ def string_case(ctx, env, rng, cps):
     return probs
 
 
+LONG_LENGTHS = (255, 256, 257, 1023, 1024, 1025, 4095, 4096, 4097, 65536, 70001)
+
+
+def long_case(ctx, env, rng, k):
+    """Long values ("whatever other characters it contains", any length): a filler of harmless text with every
+    special character placed at the start, in the middle and at the very end; lengths straddle the powers of
+    two a length-dependent fast path would use."""
+    n = LONG_LENGTHS[k % len(LONG_LENGTHS)]
+    filler = rng.choice(['a', 'ab ', 'x\xe9', '\u65e5\u672c', 'word \n'])
+    body = (filler * (n // len(filler) + 1))[:n]
+    probs = 0
+    for sp in SPECIALS:
+        cps = [ord(c) for c in body]
+        for pos in (0, n // 2, n - 1):
+            cps[pos] = ord(sp)
+        probs += check_value(ctx, env, {'t': 'str', 'cps': cps}, None, CORE + EXTENDED, ('bare', 'wrapped', 'in'),
+                             plain=('plain',))
+        if encodable(cps, 'utf-8'):
+            probs += check_value(ctx, env, {'t': 'bytes', 'cps': cps, 'enc': 'utf-8'}, None, CORE, ('bare', 'wrapped'))
+    env.add(None, 'long values evaluated (lengths 255..70001)')
+    return probs
+
+
 def object_case(ctx, env, rng, j):
     if j % 10 == 9:
         recipe = {'t': 'const', 'i': rng.randrange(len(CONSTS))}
@@ -565,6 +588,10 @@ def run(ctx, spec):
     # --- part B: random strings
     for _ in range(NSTRINGS[ctx.tier] // n):
         string_case(ctx, env, rng, rand_text(rng))
+    # --- part B2: long values
+    for k in range(len(LONG_LENGTHS)):
+        if k % n == sh % len(LONG_LENGTHS) or ctx.tier == 'thorough' and (k + sh) % 4 == 0:
+            long_case(ctx, env, rng, k)
     # --- part C: non-string values
     for j in range(NOBJECTS[ctx.tier] // n):
         object_case(ctx, env, rng, j + sh)
